@@ -49,9 +49,17 @@ pub trait ChecksumGenerator {
 
 // the repository's default generators (src/addresses.rs, src/checksums.rs): only their existence is needed here
 pub struct SimpleAddressGenerator;
+// what the trait's default methods compute (proved for them in group `addresses`): the plain address is a function of
+// (code id, instance id); the salted address of (checksum, creator, salt) ONLY
+pub uninterp spec fn spec_instantiate_address(code_id: u64, instance_id: u64) -> CanonicalAddr;
+pub open spec fn humanized(c: CanonicalAddr) -> AnyResult<Addr> { match spec_humanize_addr(c) { Ok(a) => Ok(a), Err(_) => Err(AnyError) } }
+pub open spec fn plain_addr(code_id: u64, instance_id: u64) -> AnyResult<Addr> { humanized(spec_instantiate_address(code_id, instance_id)) }
+pub open spec fn salted_addr(checksum: Seq<u8>, creator: CanonicalAddr, salt: Seq<u8>) -> AnyResult<Addr> {
+    match spec_instantiate2(checksum, creator, salt) { Err(_) => Err(AnyError), Ok(c) => humanized(c) }
+}
 impl AddressGenerator for SimpleAddressGenerator {
-    uninterp spec fn addr_sem(&self, code_id: u64, instance_id: u64) -> AnyResult<Addr>;
-    uninterp spec fn predictable_sem(&self, code_id: u64, instance_id: u64, checksum: Seq<u8>, creator: CanonicalAddr, salt: Seq<u8>) -> AnyResult<Addr>;
+    open spec fn addr_sem(&self, code_id: u64, instance_id: u64) -> AnyResult<Addr> { plain_addr(code_id, instance_id) }
+    open spec fn predictable_sem(&self, code_id: u64, instance_id: u64, checksum: Seq<u8>, creator: CanonicalAddr, salt: Seq<u8>) -> AnyResult<Addr> { salted_addr(checksum, creator, salt) }
     #[verifier::external_body]
     fn contract_address(&self, api: &dyn Api, storage: &mut dyn Storage, code_id: u64, instance_id: u64) -> (r: AnyResult<Addr>) { unimplemented!() }
     #[verifier::external_body]
